@@ -100,7 +100,7 @@ Section Cong.
 
   Lemma qv_qn e t : qv c s e t = qn (epoch_of e s) t.
   Proof.
-    unfold qv, qn, expired. destruct (t_scene t =? s) eqn:Es; cbn [andb]; [|reflexivity].
+    unfold qv, qn. rewrite expired_ltb. destruct (t_scene t =? s) eqn:Es; cbn [andb]; [|reflexivity].
     apply N.eqb_eq in Es. rewrite Es. reflexivity.
   Qed.
 
@@ -266,12 +266,12 @@ Section Main.
     (* the relevant tracks are the relevant ones among FL, corresponding position by position *)
     assert (R1 : rel1 = filter (relevant c s (E + 1)) (FL c s E st1)).
     { unfold rel1, pc_rel, FL. rewrite Hep1. symmetry. apply filter_sub. intros t _ H.
-      destruct (relevant_alive c (epochs st1) s t H) as [H1 H2]. unfold qn. fold E. unfold expired in H1. rewrite H2 in *. rewrite N.eqb_refl.
+      destruct (relevant_alive c (epochs st1) s t H) as [H1 H2]. unfold qn. fold E. rewrite expired_ltb in H1. rewrite H2 in *. rewrite N.eqb_refl.
       cbn [andb]. fold E in H1. rewrite H1. reflexivity. }
     assert (R2 : rel2 = filter (relevant c s (E + 1)) (FL c s E st2)).
     { unfold rel2, pc_rel, FL. rewrite Hep2. symmetry. apply filter_sub. intros t _ H.
       assert (H' : relevant c s (epoch_of (epochs st2) s + 1) t = true) by (rewrite <- HE; exact H).
-      destruct (relevant_alive c (epochs st2) s t H') as [H1 H2]. unfold qn. unfold expired in H1. rewrite H2 in *. rewrite N.eqb_refl.
+      destruct (relevant_alive c (epochs st2) s t H') as [H1 H2]. unfold qn. rewrite expired_ltb in H1. rewrite H2 in *. rewrite N.eqb_refl.
       cbn [andb]. rewrite <- HE in H1. fold E in H1. rewrite H1. reflexivity. }
     assert (Hlen : length rel1 = length rel2).
     { rewrite <- (map_length canon rel1), <- (map_length canon rel2), Hrel. reflexivity. }
